@@ -2,7 +2,7 @@
 # usage: tools/audit_check.sh Cxx [jobs]  - everything that validates ONE property check after a rule change:
 #   1. thorough tier on /repo (self-test overlays: mutants must fire, benign overlays must stay silent)
 #   2. every stored seeded breaking change (/verif/seeded/*) against this check only: which are detected / undecided
-#   3. every behaviour-preserving patch of the three benign batches (/tmp/wb-*, /tmp/wc-*, /tmp/wd-*) against this check only: any
+#   3. every behaviour-preserving patch of the three benign batches (/verif/benign/<batch>/<Cxx>/R*.patch) against this check only: any
 #      VIOLATION is a FALSE ALARM and must be fixed in the rule (never by matching the patch)
 P=$1; J=${2:-6}
 cd /verif
@@ -17,7 +17,7 @@ one() {
   rm -rf $d
 }
 export -f one
-( for s in seeded/*/patch.diff; do echo "seed $(readlink -f $s)"; done; for p in /tmp/wb-C*/out/R*.patch /tmp/wc-C*/out/R*.patch /tmp/wd-C*/out/R*.patch; do echo "benign $p"; done ) | xargs -P $J -L1 bash -c 'one '$P' $0 $1' > /var/tmp/audit_$P.txt 2>&1
+( for s in seeded/*/patch.diff; do echo "seed $(readlink -f $s)"; done; for p in /verif/benign/*/*/R*.patch; do echo "benign $p"; done ) | xargs -P $J -L1 bash -c 'one '$P' $0 $1' > /var/tmp/audit_$P.txt 2>&1
 echo "== seeds detected by $P:"; grep "^seed .* VIOLATION" /var/tmp/audit_$P.txt | sed 's#.*/seeded/\([^/]*\)/.*#\1#' | sort | tr '\n' ' '; echo
 echo "== seeds undecided for $P:"; grep "^seed .* undecided" /var/tmp/audit_$P.txt | sed 's#.*/seeded/\([^/]*\)/.*#\1#' | sort | tr '\n' ' '; echo
 echo "== FALSE ALARMS (benign patches with VIOLATION):"; grep "^benign .* VIOLATION" /var/tmp/audit_$P.txt | awk '{print $2}'
